@@ -4,7 +4,7 @@ import re
 from fractions import Fraction
 
 import lbry.wallet  # noqa: F401  (import order, see DESIGN 2.3)
-from lbry.wallet.dewies import dewies_to_lbc, lbc_to_dewies
+from lbry.wallet.dewies import dewies_to_lbc, lbc_to_dewies, dict_values_to_lbc
 
 import vlib
 
@@ -146,6 +146,57 @@ def check_str(run, model, s, kind):
         run.compare('C20.parse', case, impl, mod)
 
 
+def gen_dict(rng, depth=0):
+    d = {}
+    for i in range(rng.randrange(1, 6)):
+        k = rng.choice(['total', 'available', 'reserved', 'balance_delta', 'fee', 'claims', 'x%d' % i])
+        c = rng.random()
+        if c < 0.55:
+            v = rng.choice([0, 1, -1, -150000000, 5 * 10 ** 7, -5 * 10 ** 7, SUPPLY, -SUPPLY + 1,
+                            rng.randrange(-10 ** 17, 10 ** 17), -rng.randrange(1, 10 ** 8), 2 ** 53 + 1, -(2 ** 53 + 1)])
+        elif c < 0.7 and depth < 3:
+            v = gen_dict(rng, depth + 1)
+        elif c < 0.8:
+            v = rng.choice(['text', '1.0', None, 1.5, [1, 2]])
+        else:
+            v = rng.randrange(0, 10 ** 12)
+        d[k] = v
+    return d
+
+
+def check_dict(run, model, d, kind):
+    """dict_values_to_lbc: every integer amount of a (nested) balance dict is rendered exactly, negatives included"""
+    out = dict_values_to_lbc(d)
+    case = {'op': 'dict', 'd': d, 'kind': kind}
+    run.case(case, nontrivial=True, sample=False)
+    run.count('dict')
+
+    def walk(a, b, path):
+        if not isinstance(b, dict) or set(a) != set(b):
+            return f'{path}: keys differ'
+        for k, v in a.items():
+            if isinstance(v, bool):
+                continue
+            if isinstance(v, int):
+                if not isinstance(b[k], str):
+                    return f'{path}.{k}: integer amount {v} was not converted to an LBC string (got {b[k]!r})'
+                bad = monitor_format(v, b[k])
+                if bad:
+                    return f'{path}.{k}: {bad}'
+                if b[k] != model.call('format', n=v):
+                    return f'{path}.{k}: {b[k]!r} differs from the model'
+            elif isinstance(v, dict):
+                r = walk(v, b[k], path + '.' + k)
+                if r:
+                    return r
+            elif b[k] != v and not (v != v):
+                return f'{path}.{k}: non-integer value changed'
+        return None
+    bad = walk(d, out, '$')
+    if bad:
+        run.violation(case, bad, signature={'op': 'dict', 'd': vlib.canon(d)[:200]})
+
+
 def main(run):
     model = vlib.Model('C20')
     rng = run.rng
@@ -163,6 +214,9 @@ def main(run):
         check_int(run, model, n, 'random')
         if rng.random() < 0.2:
             check_int(run, model, -n, 'random-neg')
+    check_dict(run, model, {'total': -150000000, 'nested': {'fee': -1, 'deep': {'delta': -21 * 10 ** 16 + 1}}, 'ok': 5}, 'fixed')
+    for _ in range(vlib.scaled(run.tier, 600, 20000)):
+        check_dict(run, model, gen_dict(rng), 'generated')
     for s in FIXED_STRINGS:
         check_str(run, model, s, 'fixed')
     for s in gen_strings(rng, n_str):
@@ -172,7 +226,9 @@ def main(run):
 
 def replay(run, case):
     model = vlib.Model('C20')
-    if case.get('op') == 'format':
+    if case.get('op') == 'dict':
+        check_dict(run, model, case['d'], 'replay')
+    elif case.get('op') == 'format':
         check_int(run, model, int(case['n']), 'replay')
     else:
         check_str(run, model, case['s'], 'replay')
